@@ -5,3 +5,4 @@ pub mod eval;
 pub mod frames;
 pub mod mem;
 pub mod unitary;
+pub mod interp;
